@@ -78,6 +78,7 @@ func c03Pool() []poolDef {
 		lit("if"), lit("in"), lit("int"), lit("i"), lit("iffy"), lit("+"), lit("++"), lit("+="), lit("="), lit("=="), lit("a"), lit("ab"), lit("abc"), lit("b"),
 		lit(`a\"b`), lit(`\\`), lit(`\"\"`), lit(`x\\\\y`), lit(`\a`), lit(`\"`), lit("0"), lit("00"), lit("/*"), lit("//"), lit("{{"), lit("while"),
 		stok("KW_IF", "if"), stok("KW_WHILE", "while"), stok("OP", "+"),
+		tok("REC", `ab\x00c[0-9]`), tok("BIN", `key\x00`), tok("KEY", `key`), tok("VX", `v[0-9]{0}x`), tok("KZ", `k[a-z]{0}z`), tok("KAZ", `k[a-z]z`), tok("VZ", `v[0-9]{0,0}x?`),
 		tok("TEXT", `[^\x01-\x1F\x7F]+`), tok("DEL", `\x7F`), tok("NOHI", `[^\x40-\x7F]`), tok("EDGE", `[\x7E-\x80]+`), tok("NOT_E", `[^e\x00E9]`),
 		tok("ID", `[a-z]+`), tok("IDENT", `[a-z][a-z0-9_]*`), tok("ID2", `[a-z][a-z]*`), tok("WORD", `[a-zA-Z]+`), tok("UPPER", `[A-Z]+`),
 		tok("NUM", `[0-9]+`), tok("NUM2", `[0-9][0-9]*`), tok("FLOAT", `[0-9]+\.[0-9]+`), tok("HEX", `0x[0-9a-f]+`), tok("ZERO", `0+`),
